@@ -19,6 +19,8 @@ pub struct HtmlFilterBodyAction {
     visitor: HtmlBodyVisitor,
     current_buffer: Option<Box<BufferLink>>,
     last_buffer: Vec<u8>,
+    // Raw text element (script, style, title ...) whose content `last_buffer` starts in, if any
+    last_raw_tag: String,
 }
 
 lazy_static! {
@@ -50,6 +52,7 @@ impl HtmlFilterBodyAction {
             enter: Some(visitor.first()),
             leave: None,
             last_buffer: Vec::new(),
+            last_raw_tag: String::new(),
             current_buffer: None,
             visitor,
         }
@@ -67,16 +70,20 @@ impl HtmlFilterBodyAction {
             Err(_) => return Err(html::HtmlParseError::from(String::from_utf8(data).unwrap_err()).into()),
         };
 
-        let mut tokenizer = html::Tokenizer::new(data);
+        // The bytes kept from the previous chunk may start inside a raw text element: read them in that context
+        let mut tokenizer = html::Tokenizer::new_fragment(data, self.last_raw_tag.clone());
         let mut to_return = "".to_string();
 
         loop {
+            // Context in which the next token is read, needed again when this token has to be kept for the next chunk
+            let mut raw_tag = tokenizer.raw_tag().to_string();
             let mut token_type = tokenizer.next()?;
 
             if token_type == html::TokenType::ErrorToken {
                 self.last_buffer = tokenizer.raw();
                 self.last_buffer.extend(tokenizer.buffered());
                 self.last_buffer.extend(incomplete_char);
+                self.last_raw_tag = raw_tag;
 
                 break;
             }
@@ -84,6 +91,7 @@ impl HtmlFilterBodyAction {
             let mut token_data = tokenizer.raw_as_string()?;
 
             while token_type == html::TokenType::TextToken && (token_data.contains('<') || token_data.contains("</")) {
+                let next_raw_tag = tokenizer.raw_tag().to_string();
                 token_type = tokenizer.next()?;
 
                 if token_type == html::TokenType::ErrorToken {
@@ -91,6 +99,7 @@ impl HtmlFilterBodyAction {
                     self.last_buffer.extend(tokenizer.raw());
                     self.last_buffer.extend(tokenizer.buffered());
                     self.last_buffer.extend(incomplete_char);
+                    self.last_raw_tag = raw_tag;
 
                     return Ok(to_return.into_bytes());
                 }
@@ -102,6 +111,18 @@ impl HtmlFilterBodyAction {
                 }
 
                 token_data = tokenizer.raw_as_string()?;
+                raw_tag = next_raw_tag;
+            }
+
+            // A comment, doctype, CDATA section or raw text that the end of the chunk cut is not a token yet: its end
+            // may be in the next chunk, which would otherwise be read as markup. Keep it, as an incomplete tag is kept
+            if tokenizer.err().is_some() && Self::is_cut_by_end_of_chunk(token_type, token_data.as_str(), raw_tag.as_str()) {
+                self.last_buffer = token_data.into_bytes();
+                self.last_buffer.extend(tokenizer.buffered());
+                self.last_buffer.extend(incomplete_char);
+                self.last_raw_tag = raw_tag;
+
+                break;
             }
 
             match token_type {
@@ -155,6 +176,15 @@ impl HtmlFilterBodyAction {
         }
 
         Ok(to_return.into_bytes())
+    }
+
+    fn is_cut_by_end_of_chunk(token_type: html::TokenType, token_data: &str, raw_tag: &str) -> bool {
+        match token_type {
+            html::TokenType::CommentToken | html::TokenType::DoctypeToken => true,
+            // Everything after a plaintext start tag is text, whatever comes: nothing to wait for
+            html::TokenType::TextToken => (!raw_tag.is_empty() && raw_tag != "plaintext") || token_data.starts_with("<![CDATA["),
+            _ => false,
+        }
     }
 
     pub fn end(&mut self) -> Vec<u8> {
